@@ -123,6 +123,11 @@ fn check_case(c: &HistCase, st: &mut Stats, ss: &mut ShardState) {
     st.add("actions_that_modified_the_flattened_copy", obs.updates_by_action_observed);
     st.add("update_or_retract_of_dead_handle_rejected", obs.api_errors_on_dead_handles);
     st.max("max::actions_in_one_fire_all", obs.max_actions_in_one_fire_all);
+    st.max("max::operations_in_one_history", c.ops.len() as u64);
+    st.max("max::handles_issued_in_one_history", obs.handles_issued);
+    if c.ops.len() >= 40 {
+        st.count("long_histories(40..=200 operations, up to 150 facts)");
+    }
     if obs.did_not_return {
         st.count("fire_all_exceeded_logical_step_bound(C07_concern)");
         st.inconclusive("a fire_all call exceeded the logical step bound (termination is C07's property); the history was not judged further");
